@@ -72,6 +72,7 @@ void x__ZSt17__throw_bad_allocv(void) { VF_FAIL("bad_alloc"); }
 void x__ZSt20__throw_length_errorPKc(P m) { VF_FAIL("length_error"); }
 void x__ZSt25__throw_bad_function_callv(void) { VF_FAIL("bad_function_call"); }
 void x__ZSt24__throw_out_of_range_fmtPKcz(P m) { VF_FAIL("out_of_range"); }
+uint32_t x_strcmp(P a, P b) { for (int i = 0; i < 64; ++i) { if (a[i] != b[i]) return a[i] < b[i] ? (uint32_t)-1 : 1u; if (a[i] == 0) return 0; } return 0; }
 uint64_t x_strlen(P s) { uint64_t n = 0; while (s[n]) ++n; return n; }
 /* std::logic_error / std::exception: {vptr, msg}; the vptr points at the modelled vtable emitted by the translator
  * ([D1, D0, what]); what() returns the construction pointer */
